@@ -384,6 +384,88 @@ static void print_obs (const char *eng, int64_t ret) {
   }
 }
 
+/* ---- independent oracle for the long double instructions (DocSpec gives them no Coq meaning): the host
+   C compiler's own x87 long double arithmetic.  Performs on the block what the test function must do. */
+static long double ld_of (opnd_t *o) {
+  long double v = 0;
+  memcpy (&v, &o->val, 10);
+  return v;
+}
+static int native_ld (case_t *c, int64_t *ret) {
+  char rk = c->kinds[0], xk = c->kinds[1], yk = c->kinds[2];
+  const char *n = c->opname;
+  if (xk != 'l' && rk != 'l') return 0;
+  if (c->pre[0] || c->post[0] || c->br[0] || c->prime >= 0) return 0;
+  long double x = 0, y = 0, lr = 0;
+  int64_t ix = (int64_t) (uint64_t) c->x.val, ir = 0;
+  if (c->x.kind == 'm' && xk == 'i') { /* extension of a narrow memory operand */
+    const char *t = c->x.ty;
+    if (!strcmp (t, "i8")) ix = (int8_t) ix;
+    else if (!strcmp (t, "u8")) ix = (uint8_t) ix;
+    else if (!strcmp (t, "i16")) ix = (int16_t) ix;
+    else if (!strcmp (t, "u16")) ix = (uint16_t) ix;
+    else if (!strcmp (t, "i32")) ix = (int32_t) ix;
+    else if (!strcmp (t, "u32")) ix = (uint32_t) ix;
+  }
+  float fx, fr = 0;
+  double dx, dr = 0;
+  uint32_t u32 = (uint32_t) c->x.val;
+  uint64_t u64v = (uint64_t) c->x.val;
+  memcpy (&fx, &u32, 4);
+  memcpy (&dx, &u64v, 8);
+  if (xk == 'l') x = ld_of (&c->x);
+  if (yk == 'l') y = ld_of (&c->y);
+  int flag = -1;
+  if (!strcasecmp (n, "LDMOV")) lr = x;
+  else if (!strcasecmp (n, "LDNEG")) lr = -x;
+  else if (!strcasecmp (n, "LDADD")) lr = x + y;
+  else if (!strcasecmp (n, "LDSUB")) lr = x - y;
+  else if (!strcasecmp (n, "LDMUL")) lr = x * y;
+  else if (!strcasecmp (n, "LDDIV")) lr = x / y;
+  else if (!strcasecmp (n, "LDEQ")) ir = x == y;
+  else if (!strcasecmp (n, "LDNE")) ir = x != y;
+  else if (!strcasecmp (n, "LDLT")) ir = x < y;
+  else if (!strcasecmp (n, "LDLE")) ir = x <= y;
+  else if (!strcasecmp (n, "LDGT")) ir = x > y;
+  else if (!strcasecmp (n, "LDGE")) ir = x >= y;
+  else if (!strcasecmp (n, "LDBEQ")) flag = x == y;
+  else if (!strcasecmp (n, "LDBNE")) flag = x != y;
+  else if (!strcasecmp (n, "LDBLT")) flag = x < y;
+  else if (!strcasecmp (n, "LDBLE")) flag = x <= y;
+  else if (!strcasecmp (n, "LDBGT")) flag = x > y;
+  else if (!strcasecmp (n, "LDBGE")) flag = x >= y;
+  else if (!strcasecmp (n, "I2LD")) lr = (long double) ix;
+  else if (!strcasecmp (n, "UI2LD")) lr = (long double) (uint64_t) ix;
+  else if (!strcasecmp (n, "F2LD")) lr = fx;
+  else if (!strcasecmp (n, "D2LD")) lr = dx;
+  else if (!strcasecmp (n, "LD2F")) fr = (float) x;
+  else if (!strcasecmp (n, "LD2D")) dr = (double) x;
+  else if (!strcasecmp (n, "LD2I")) {
+    if (!(x > -9223372036854775808.0L - 1.0L && x < 9223372036854775808.0L)) return 0; /* undefined in C */
+    ir = (int64_t) x;
+  } else
+    return 0;
+  *ret = 0;
+  if (flag >= 0) {
+    int64_t f64 = flag;
+    memcpy (block + 112, &f64, 8);
+    *ret = flag;
+    return 1;
+  }
+  unsigned char *dst = c->dst.kind == 'm' ? block + 192 : block + 96;
+  if (rk == 'l') memcpy (dst, &lr, 10);
+  else if (rk == 'f') memcpy (dst, &fr, 4);
+  else if (rk == 'd') memcpy (dst, &dr, 8);
+  else if (c->dst.kind == 'm') {
+    int sz = strchr (c->dst.ty, '8') && !strchr (c->dst.ty, '1') ? 1 : strstr (c->dst.ty, "16") ? 2 : strstr (c->dst.ty, "32") ? 4 : 8;
+    memcpy (dst, &ir, sz);
+  } else {
+    memcpy (dst, &ir, 8);
+    *ret = ir;
+  }
+  return 1;
+}
+
 #define NENG 5
 static MIR_context_t ctxs[NENG];
 static const char *eng_names[NENG] = {"interp", "gen0", "gen1", "gen2", "gen3"};
@@ -444,6 +526,14 @@ static int run_mode (void) {
         ret = fun ((int64_t) (intptr_t) block);
       }
       print_obs (eng_names[e], ret);
+    }
+    {
+      int64_t nret;
+      fill_block (&c);
+      save_block ();
+      if ((c.x.kind == 'r' || c.x.kind == 'i' || c.x.kind == 'u' || c.x.kind == 'm')
+          && (c.y.kind == '-' || c.y.kind == 'r' || c.y.kind == 'i' || c.y.kind == 'm') && native_ld (&c, &nret))
+        print_obs ("native", nret);
     }
     printf ("\n");
     fflush (stdout);
